@@ -1,5 +1,6 @@
 import BarterModel.Lemmas.Connectivity
 import BarterModel.Lemmas.KernelsAgree.Connectivity
+import BarterModel.Lemmas.KernelsAgree.ConnectivityUpdSM
 /-!
 # C14 — Global connectivity is healthy exactly when every exchange link is
 
@@ -216,10 +217,30 @@ example : (Eng.run (Eng.init 2) [.marketItem 0, .accountItem 0, .marketItem 1, .
 `enum Health` with its `Default`, `struct ConnectivityState` and `ConnectivityState::all_healthy`
 are regenerated from the current source by `tools/rust2lean_sm.py` on every run and equal the
 model's `Health`, `CState` and `allHealthy` through a record bijection; the default health is
-`reconnecting`. The per-exchange update arms use `IndexMap` accessors and iterator adaptors the
-translator rejects; they stay tied by the correspondence run. -/
+`reconnecting`. The per-exchange update arms use `IndexMap` accessors and the iterator adaptor
+`values().all(..)`; since the translator has an explicit map vocabulary for these they are tied by
+translation as well: see `update_arms_agree_with_source` below. -/
 theorem kernels_agree_with_source :
     type_of% BarterModel.KernelsAgree.Connectivity.connectivity_kernels_agree :=
   BarterModel.KernelsAgree.Connectivity.connectivity_kernels_agree
+
+/-- **Tie to the source by translation, the update arms.** `ConnectivityStates::{update_from_account_reconnecting,
+update_from_account_event, update_from_market_reconnecting, update_from_market_event, connectivity, connectivity_index,
+exchange_states}` and `ExchangeIndex::index` are regenerated from the current source by `tools/rust2lean_sm.py` on
+every run (`Generated/Machines3.lean`, group `connectivity_updates`); the `&mut`-returning accessors `connectivity_mut` /
+`connectivity_index_mut` are read in place at their calls, the `IndexMap<ExchangeId, ConnectivityState>` through the
+translator's explicit map vocabulary (a list of pairs addressed by position and by key, written back in place;
+`values().all(p)` is `List.all`). For ALL states: read through `ofStates` (global health by the `Health` bijection, the
+exchanges as the list of values in map order), each generated update function is the model function the theorems of
+this file are about — `States.accountReconnecting` / `marketReconnecting` / `marketEvent` at the position of the first
+pair with that `ExchangeId` (`pos`), `States.accountEvent` at the `ExchangeIndex` — PROVIDED the addressed exchange
+exists (`pos s k < length` / `i < length`): otherwise the code panics where the model leaves the state unchanged, which
+is the guard `e < n` every theorem above carries. No update changes the key list (so positions are stable along a run),
+the two `&self` readers return the addressed slot, and every model state is the image of a generated one (`toStates`).
+The statement is that of `KernelsAgree.ConnectivityUpdSM.connectivity_updates_agree`
+(Lemmas/KernelsAgree/ConnectivityUpdSM.lean). -/
+theorem update_arms_agree_with_source :
+    type_of% BarterModel.KernelsAgree.ConnectivityUpdSM.connectivity_updates_agree :=
+  BarterModel.KernelsAgree.ConnectivityUpdSM.connectivity_updates_agree
 
 end BarterModel.Props.C14
